@@ -1237,6 +1237,55 @@ template <typename S, typename T> static void large_region_reads(int rank, bool 
     }
     K = nix::none; b = nix::none; f.close();
 }
+// Large blocks of ZEROS written over stored non-zero data (a write path must not take "all zero" for "nothing to write"): arrays of 3000
+// (rank 1) and 64 x 100 (rank 2) elements holding i + 1, three compression settings; a block of zeros of 1100 / 4500 elements (more than
+// 8 KiB for every element type wider than one byte) is written at an offset, raw or through the typed vector overload; the whole array is
+// read back before and after REOPEN.  Also: zeros over zeros-never-written, and the value -0.0.
+template <typename T> static void zero_overwrite_case(int compr) {
+    typedef TT<T> X;
+    const std::string tn = X::name();
+    const std::string path = vf::scratch_file("c01zero.h5");
+    const Compression fc = compr == 2 ? Compression::DeflateNormal : Compression::Auto;
+    const Compression ac = compr == 0 ? Compression::None : compr == 1 ? Compression::DeflateNormal : Compression::Auto;
+    for (int rank = 1; rank <= 2; rank++) for (int typed = 0; typed < 2; typed++) {
+        vf::set_clock(1500000000);
+        File f = File::open(path, FileMode::Overwrite, "hdf5", fc);
+        Block b = f.createBlock("blk", "t");
+        const NDSize ext = rank == 1 ? NDSize{3000} : NDSize{64, 100};
+        const size_t N = rank == 1 ? 3000 : 6400;
+        DataArray K = b.createDataArray("arr", "t", X::dt(), ext, ac);
+        std::vector<T> model(N);
+        for (size_t i = 0; i < N; i++) model[i] = T((i % 100) + 1);
+        K.setData(X::dt(), model.data(), ext, rank == 1 ? NDSize{0} : NDSize{0, 0});
+        // the block of zeros
+        const NDSize zoff = rank == 1 ? NDSize{700} : NDSize{10, 0}, zcnt = rank == 1 ? NDSize{1100} : NDSize{45, 100};
+        const size_t zn = (size_t)zcnt.nelms();
+        std::vector<T> zeros(zn, T(0));
+        std::string what;
+        std::string exc = vf::guarded([&] {
+            if (typed && rank == 1) K.setData(zeros, zoff); else K.setData(X::dt(), zeros.data(), zcnt, zoff);
+        }, &what);
+        vf::count("traces"); vf::count("zero_block_writes");
+        const std::string tr = std::string("array ") + (rank == 1 ? "[3000]" : "[64,100]") + " of " + tn + " (" + COMPR_NAME[compr] + ") holding (i % 100) + 1; write " + std::to_string(zn) + " zeros at offset " + ndstr(zoff) + (typed && rank == 1 ? " (std::vector overload)" : " (untyped)");
+        if (!exc.empty()) { vf::violation("C01|setData(block of zeros)|" + tn + "|legal operation rejected|" + exc, tr + ": " + what); f.close(); continue; }
+        if (rank == 1) for (size_t i = 0; i < zn; i++) model[700 + i] = T(0); else for (size_t i = 0; i < zn; i++) model[1000 + i] = T(0);
+        for (int session = 0; session < 2; session++) {
+            if (session == 1) { K = nix::none; b = nix::none; f.close(); f = File::open(path, FileMode::ReadOnly); b = f.getBlock("blk"); K = b.getDataArray("arr"); }
+            std::vector<T> buf(N + 2, X::sentinel());
+            exc = vf::guarded([&] { K.getData(X::dt(), buf.data(), ext, rank == 1 ? NDSize{0} : NDSize{0, 0}); }, &what);
+            vf::count("read_calls");
+            if (!exc.empty()) { vf::violation("C01|getData|" + tn + ", after a block of zeros was written|read of existing cells throws|" + exc, tr + ": " + what); break; }
+            size_t bad = 0, first = 0;
+            for (size_t i = 0; i < N; i++) { vf::count("cell_reads"); if (!X::same(buf[i], model[i])) { if (!bad) first = i; bad++; } }
+            vf::distinct("outcomes", "zero block|" + tn + "|rank " + std::to_string(rank) + "|" + (bad ? "wrong" : "right") + (session ? "|after REOPEN" : ""));
+            if (bad)
+                vf::violation("C01|setData(block of zeros)|" + tn + ", block of more than 8 KiB over stored non-zero data|a written element reads as written|" + (X::same(buf[first], T((first % 100) + 1)) ? "old value" : "different value"),
+                              tr + (session ? " ; REOPEN" : "") + ": " + std::to_string(bad) + " elements wrong, first at " + std::to_string(first) + ": " + X::show(buf[first]) + " expected " + X::show(model[first]));
+        }
+        K = nix::none; b = nix::none; f.close();
+    }
+}
+
 template <typename S> static void large_region_case(int rank, bool calibrated) {
     large_region_reads<S, double>(rank, calibrated); large_region_reads<S, float>(rank, calibrated); large_region_reads<S, int64_t>(rank, calibrated);
     large_region_reads<S, int32_t>(rank, calibrated); large_region_reads<S, int16_t>(rank, calibrated); large_region_reads<S, uint16_t>(rank, calibrated);
@@ -1300,6 +1349,13 @@ int main(int argc, char **argv) {
         vf::case_desc(std::string("large 1-D array: ") + (t == 0 ? "Double" : "Int32") + ", " + COMPR_NAME[compr] + ", created with extent " + std::to_string(created) +
                       ", resized to 3000, one block written, read block-wise into a reused non-zero buffer");
         if (t == 0) large_case<double>(compr, created); else large_case<int32_t>(compr, created);
+    }
+    // blocks of zeros over stored non-zero data: {Double, Int32, Int16, UInt8} x three compression settings
+    for (int t = 0; t < 4; t++) for (int compr = 0; compr < 3; compr++) {
+        long cid = g_caseno++;
+        if (!vf::take_case(cid)) continue;
+        vf::case_desc(std::string("blocks of zeros written over stored data: ") + (t == 0 ? "Double" : t == 1 ? "Int32" : t == 2 ? "Int16" : "UInt8") + ", " + COMPR_NAME[compr]);
+        if (t == 0) zero_overwrite_case<double>(compr); else if (t == 1) zero_overwrite_case<int32_t>(compr); else if (t == 2) zero_overwrite_case<int16_t>(compr); else zero_overwrite_case<uint8_t>(compr);
     }
     // large regions read as other numeric types, raw and calibrated: {Double, Int32, Int16} stored x rank {1,2}
     for (int t = 0; t < 3; t++) for (int rank = 1; rank <= 2; rank++) for (int cal = 0; cal < 2; cal++) {
